@@ -99,10 +99,13 @@ def run_c12(ctx):
                          known_match=known_match)
     ctx.run_and_validate(DRIVER, COMP, TRACE, unheld_release_cases(ctx.tier), 'unheld_release_during_wait',
                          known_match=known_match)
-    ctx.run_and_validate(DRIVER, COMP, TRACE, residue_stall_sweep(ctx.tier), 'residue_stall_sweep',
-                         known_match=known_match)
+    swept = ctx.run_and_validate(DRIVER, COMP, TRACE, residue_stall_sweep(ctx.tier), 'residue_stall_sweep',
+                                 known_match=known_match)
     from harness.components import filelockmodel
     filelockmodel.model_check(ctx)
+    # implementation conformance of the overlapping executions: every k-th of the sweep against FileLock.tla
+    step = max(1, len(swept) // (32 if ctx.tier == 'quick' else 300))
+    filelockmodel.conformance(ctx, swept[::step], limit=32 if ctx.tier == 'quick' else 300)
     ctx.cov['state_op_pairs_covered'] = total_pairs
     return ctx.finish(
         rule='operation sequences generated by TLC from the reference model LockRef.tla: a cover of every '
